@@ -302,6 +302,49 @@ def runTpLine (r : Report) (sec : Nat) (st : TpSt) (l : Line) : Report × TpSt :
     | none => fail "unparsable-line"
   | _ => fail "bad-op"
 
+/-- `par` lines: several requests inside `ParseToken` of one parser at once. By `Conc.concurrent_jwt_outcome_is_sequential`
+the outcome of each is the sequential one under ANY history, so the model is `parseToken` on an empty history. -/
+def runTpcLine (r : Report) (sec : Nat) (s p : String) (l : Line) : Report :=
+  let fail (msg : String) := r.mismatch sec l.idx msg (joinSp l.op)
+  match l.op with
+  | "par" :: args =>
+    let o := l.obs
+    match (kv? args "now").bind String.toInt?, (kv? o "n").bind String.toNat? with
+    | some now, some n =>
+      let r := { r with ops := r.ops + 1 }
+      let r := r.addCover s!"tpc-requests-at-once-{if n ≥ 5 then "5-or-more" else toString n}"
+      (List.range n).foldl (fun r i =>
+        let key (k : String) := s!"{k}.{i}"
+        let parsed : Option (TokenFacts String × Bool × Bool) := do
+          let alg ← kv? o (key "alg")
+          let algS ← if alg = "-" then some none else (unhexStr alg).map some
+          let sigcur := kv? o (key "sigcur") = some "1"
+          let sigprev := kv? o (key "sigprev") = some "1"
+          let f : TokenFacts String := {
+            present := kv? o (key "present") = some "1", segs := (← (← kv? o (key "segs")).toNat?),
+            hdrOk := kv? o (key "hdr") = some "1", clmOk := kv? o (key "clm") = some "1", alg := algS,
+            sigOk := fun x => (x = s && sigcur) || (x = p && p ≠ "" && sigprev),
+            exp := (← parseTimeClaim (← kv? o (key "exp"))), nbf := (← parseTimeClaim (← kv? o (key "nbf"))),
+            iat := (← parseTimeClaim (← kv? o (key "iat"))), claims := [] }
+          pure (f, (← kv? o (key "err")) ≠ "0", (← kv? o (key "valid")) = "1")
+        match parsed with
+        | none => r.mismatch sec l.idx "unparsable-request" (toString i)
+        | some (f, err, valid) =>
+          let m := (parseToken (jwtVerify f now) {} s p 0).2
+          let mValid := match m with | .tok v _ => v | .err => false
+          let r := if m.isErr ≠ err ∨ mValid ≠ valid then
+              r.mismatch sec l.idx s!"request {i}: err={m.isErr} valid={mValid}" s!"err={err} valid={valid}" else r
+          let r := r.addCover (
+            if !m.isErr then (if f.sigOk s then "tpc-accepted-current" else "tpc-accepted-previous")
+            else if (f.sigOk s || f.sigOk p) ∧ !timeValid f now then "tpc-refused-time-claims-invalid-under-a-configured-secret"
+            else "tpc-refused")
+          if !err ∧ !credentialOk f now s p then
+            r.violation sec l.idx s!"tp: with {n} requests inside ParseToken at once, request {i} was accepted although its token is not valid under the current or the previous secret (signature and time claims)"
+          else if !err ∧ !valid then r.violation sec l.idx "tp: ParseToken returned a token that is not marked valid without an error"
+          else r) r
+    | _, _ => fail "bad-op"
+  | _ => fail "bad-op"
+
 /-! ### content security / cryption -/
 
 def compareResp (r : Report) (sec line : Nat) (m0 m1 : Resp) (obs : Resp) : Report :=
@@ -803,6 +846,10 @@ def runSection (r : Report) (s : Section) : Report :=
     let rd := kvInt s.cfg "rd" 0
     let h0 : Hist := if rd > 0 then { resetTime := t0, resetDuration := rd } else { resetTime := t0 }
     (s.lines.foldl (fun (acc : Report × TpSt) l => runTpLine acc.1 s.idx acc.2 l) (r, { hist := h0, clock := t0 })).1
+  | some "tpc" =>
+    match (kv? s.cfg "s").bind unhexStr, (kv? s.cfg "p").bind unhexStr with
+    | some sc, some pv => s.lines.foldl (fun acc l => runTpcLine acc s.idx sc pv l) r
+    | _, _ => r.mismatch s.idx 0 "bad-section" (joinSp s.cfg)
   | some "text" => s.lines.foldl (fun acc l => runTextLine acc s.idx l) r
   | some "rest" =>
     match parseRestCfg s.cfg with
